@@ -171,7 +171,11 @@ func (t token) reduced() string {
 	case "STRING":
 		return "STRING/" + hx(t.val)
 	case "DURATION":
-		return "DURATION/" + t.text
+		d, err := parser.VerifParseDuration(t.text)
+		if err != nil {
+			return "DURATION/X"
+		}
+		return "DURATION/" + strconv.FormatInt(d, 10) + "s"
 	}
 	return t.full()
 }
